@@ -7,6 +7,11 @@ COMMON_ASSUMPTIONS = [
 ]
 
 PROPS = {
+    "C02": {
+        "kinds": [("C02", 600, 8000), ("C02T", 0, 3000)],
+        "rule": "one pair of random trees (K in {2,4}, total/partial, leaf-rooted operands, index holes) composed without pruning, or one apply_func; 8-10 lattice inputs per case, half of them moved onto a decision hyperplane; non-trivial = both operands have at least 3 nodes; distinct by case text",
+        "assumptions": COMMON_ASSUMPTIONS + ["indices of new nodes are not compared (slab policy), only required to be fresh and distinct"],
+    },
     "C13": {
         "kinds": [("C13", 1500, 20000), ("C13T", 0, 8000)],
         "rule": "one (tree shape with index holes, K in {2,3}; start node; traversal kind; skip schedule with repeated skips) per case plus all metrics; non-trivial = tree has at least 5 nodes; distinct by case text",
